@@ -40,6 +40,7 @@ def corr(ctx):
             return torch.tensor(np.array([rng.getrandbits(1) for _ in range(int(np.prod(shape)))]).reshape(shape), dtype=torch.float32)
         nmsg = 12 if ctx.thorough else 5
         layouts = [("1d", rnd(k)), ("Bk", rnd(nmsg, k)), ("B1B2k", rnd(2, 3, k))] + [("blocks%d" % b, rnd(2, b * k)) for b in (1, 2, 3, 4)]
+        layouts += [("B1B2blocks2", rnd(2, 3, 2 * k)), ("B1B2B3blocks3", rnd(2, 2, 2, 3 * k))]
         if k <= 6:
             import itertools
             layouts.append(("all", torch.tensor(list(itertools.product([0, 1], repeat=k)), dtype=torch.float32)))
@@ -87,6 +88,21 @@ def corr(ctx):
             r = _reject(lambda: enc.inverse_encode(badc))
             ops.append(Op("inv %s %s" % (name, bits(badc)), "reject" if r is None else "accepted", info=info))
             ctx.count("reject_cases", 2)
+        # batched non-multiples whose total size IS a multiple: every row must still be rejected
+        if k > 1 and k <= 16:
+            for shp in [(k, k + 1)] + ([(2, k // 2), (2, 3 * k // 2)] if k % 2 == 0 and k > 2 else []):
+                badb = rnd(*shp)
+                r = _reject(lambda: enc(badb))
+                ops.append(Op("enc %s %s" % (name, bits(badb[0])), "reject" if r is None else "accepted:shape%s" % (tuple(r.shape),), info=dict(info, site="fec.encoders:%s.forward" % c.family, config=dict(info["config"], layout="batched-non-multiple%s" % (shp,)))))
+        if n <= 16:
+            shapes = [(n, n + 1)] + ([(2, n // 2), (4, n // 2), (2, 3 * n // 2)] if n % 2 == 0 and n > 2 else [])
+            for shp in shapes:
+                badb = rnd(*shp)
+                for fn_name in ("inverse_encode", "extract_message", "calculate_syndrome"):
+                    r = _reject(lambda: getattr(enc, fn_name)(badb))
+                    verb = "syn" if fn_name == "calculate_syndrome" else "inv"
+                    ops.append(Op("%s %s %s" % (verb, name, bits(badb[0])), "reject" if r is None else "accepted", info=dict(info, site="fec.encoders:%s.%s" % (c.family, fn_name), config=dict(info["config"], layout="batched-non-multiple%s" % (shp,)))))
+            ctx.count("reject_cases", 3 * len(shapes))
         ctx.count("family_" + c.family)
     return ops
 
@@ -112,7 +128,7 @@ def search(ctx, mismatches, broken, prop_fail):
         n, k = enc.code_length, enc.code_dimension
         if c.family == "reed_muller" and k > 12:
             continue
-        for tag, shape in (("1d", (k,)), ("Bk", (4, k)), ("B1B2k", (2, 2, k)), ("blocks2", (2, 2 * k)), ("blocks3", (3 * k,))):
+        for tag, shape in (("1d", (k,)), ("Bk", (4, k)), ("B1B2k", (2, 2, k)), ("blocks2", (2, 2 * k)), ("blocks3", (3 * k,)), ("B1B2blocks2", (2, 3, 2 * k))):
             M = torch.tensor(np.array([rng.getrandbits(1) for _ in range(int(np.prod(shape)))]).reshape(shape), dtype=torch.float32)
             what = None
             try:
@@ -120,7 +136,12 @@ def search(ctx, mismatches, broken, prop_fail):
                 if C.shape[-1] * k != M.shape[-1] * n or tuple(C.shape[:-1]) != tuple(M.shape[:-1]):
                     what = "encode maps shape %s to %s" % (tuple(M.shape), tuple(C.shape))
                 else:
-                    for fn_name in ("inverse_encode", "extract_message") + (("project_word",) if hasattr(enc, "project_word") else ()):
+                    # per-block reference: every block of every row must be the encoding of the corresponding message block
+                    Cb = C.reshape(-1, n); Mb = M.reshape(-1, k)
+                    ref = torch.stack([enc(Mb[i]) for i in range(Mb.shape[0])])
+                    if bool((ref != Cb).any()):
+                        what = "encode of layout %s differs from block-by-block encoding" % (tuple(M.shape),)
+                    for fn_name in (("inverse_encode", "extract_message") + (("project_word",) if hasattr(enc, "project_word") else ())) if what is None else ():
                         res = getattr(enc, fn_name)(C)
                         dec, syn = res if isinstance(res, tuple) else (res, None)
                         if tuple(dec.shape) != tuple(M.shape) or bool((dec != M).any()):
@@ -135,17 +156,21 @@ def search(ctx, mismatches, broken, prop_fail):
                 out.append({"site": "fec.encoders:%s" % c.family, "config": {"inst": name, "family": c.family, "layout": tag},
                             "what": "%s [%s]: %s" % (name, tag, what), "ops": ["enc %s %s" % (name, bits(M.reshape(-1)))], "kind": "failing-input"})
                 break
-        for L, fn in ((k + 1, enc.forward), (n + 1, enc.inverse_encode)):
+        for L, fn in ((k + 1, enc.forward), (n + 1, enc.inverse_encode), (-(k + 1), enc.forward), (-(n + 1), enc.inverse_encode), (-(n + 1), enc.extract_message)):
             size = k if fn == enc.forward else n
-            if L % size == 0:
+            batched = L < 0
+            L = abs(L)
+            if L % size == 0 or size > 16 or size < 2:
                 continue
-            x = torch.zeros(L)
-            try:
-                fn(x)
-                out.append({"site": "fec.encoders:%s" % c.family, "config": {"inst": name, "family": c.family, "layout": "non-multiple"},
-                            "what": "%s: a last dimension of %d (not a multiple of %d) is accepted instead of rejected" % (name, L, size), "ops": [], "kind": "failing-input"})
-            except Exception:
-                pass
+            xs = [torch.zeros(size, L)] + ([torch.zeros(2, size // 2), torch.zeros(2, 3 * size // 2)] if size % 2 == 0 and size > 2 else []) if batched else [torch.zeros(L)]
+            for x in xs:
+                try:
+                    fn(x)
+                    out.append({"site": "fec.encoders:%s" % c.family, "config": {"inst": name, "family": c.family, "layout": "non-multiple"},
+                                "what": "%s: %s accepts an input of shape %s whose last dimension is not a multiple of %d instead of rejecting it" % (name, getattr(fn, "__name__", "call"), tuple(x.shape), size), "ops": [], "kind": "failing-input"})
+                    break
+                except Exception:
+                    pass
         if len(out) >= 8:
             break
     return out
